@@ -365,6 +365,7 @@ package anytype
 //@   let t0 := trlen()
 //@   assigns  nothing
 //@   panics_iff false
+//@   callback_args okArg(a0) && supp(a0)
 //@   ensures  count: trlen() == t0 + n
 //@   ensures  calls: forall j int :: t0 <= j && j < t0 + n ==> trA(j) == valOf(ego.val[j - t0])
 //@   ensures  prefix: forall j int :: 0 <= j && j < t0 ==> trA(j) == old(trA(j)) && trB(j) == old(trB(j))
@@ -1477,9 +1478,57 @@ package anytype
 // Not under contract (their callbacks mutate containers the callee's frame would have to name):
 // decided by the bounded oracles only; listed here so that the coverage obligation sees them.
 // ---------------------------------------------------------------------------
-//@ func native bounded [C13]
-//@ func (*list).NativeSlice bounded [C13]
-//@ func (*object).NativeDict bounded [C13]
+// native (C13): one level of the conversion per call (nat1): Lists become fresh []any, Objects fresh
+// map[string]any, everything else is returned as is; element k / field k of the result is the
+// conversion of element k / field k. Depth by induction over the recursive calls.
+//@ func native$1 [C13]
+//@   ghost M int
+//@   requires low: M <= mark()
+//@   requires live: allocated(mapid(deref(result))) && mapid(deref(result)) >= M && kindAt(mapid(deref(result))) == KNMAP
+//@   requires arg: okArg(val)
+//@   assigns  mapof(mapid(deref(result)))
+//@   panics_iff false
+//@   each     set: has(deref(result), key) && nat1(M, val, deref(result)[key])
+//@   others   k2 str :: has(deref(result), k2) == old(has(deref(result), k2)) && deref(result)[k2] == old(deref(result)[k2])
+//@   ensures  hdr: mapid(deref(result)) == old(mapid(deref(result)))
+
+//@ func native$2 [C13]
+//@   ghost M int
+//@   requires low: M <= mark()
+//@   requires live: allocated(arr(deref(result))) && arr(deref(result)) >= M && kindAt(arr(deref(result))) == KNARR && off(deref(result)) == 0 && 0 <= len(deref(result)) && len(deref(result)) <= cap(deref(result))
+//@   requires arg: okArg(h)
+//@   assigns  cell(result) && arr(deref(result))
+//@   panics_iff false
+//@   appends  e_ :: deref(result) :: nat1(M, h, e_)
+
+//@ func native [C13]
+//@   requires arg: (isVList(value) ==> kindAt(impl(vlref(value))) == KLIST) && (isVObj(value) ==> kindAt(impl(voref(value))) == KOBJ)
+//@   let M := mark()
+//@   let l := list(impl(vlref(value)))
+//@   let o := obj(impl(voref(value)))
+//@   assigns  nothing
+//@   panics_iff false
+//@   ensures  level: nat1(M, value, result)
+//@   ensures  shape: (isVList(value) ==> kindAt(sla(result)) == KNARR && allocated(sla(result)) && sll(result) <= slc(result)) && (isVObj(value) ==> kindAt(mpi(result)) == KNMAP && allocated(mpi(result)))
+//@   ensures  list-len: isVList(value) ==> sll(result) == len(l.val)
+//@   ensures  list-elems: isVList(value) ==> (forall k int :: {natElem(result, k)} 0 <= k && k < len(l.val) ==> nat1(M, valOf(l.val[k]), natElem(result, k)))
+//@   ensures  obj-keys: isVObj(value) ==> (forall k str :: {domAt(result, k)} domAt(result, k) == has(o.val, k))
+//@   ensures  obj-vals: isVObj(value) ==> (forall k str :: {natVal(result, k)} has(o.val, k) ==> nat1(M, valOf(o.val[k]), natVal(result, k)))
+
+//@ func (*list).NativeSlice [C13 C09]
+//@   requires invL(ego)
+//@   assigns  nothing
+//@   panics_iff false
+//@   ensures  own-storage: fresh(arr(result)) && len(result) == len(ego.val)
+//@   ensures  elems: forall k int :: 0 <= k && k < len(ego.val) ==> nat1(mark(), valOf(ego.val[k]), result[k])
+
+//@ func (*object).NativeDict [C13 C09]
+//@   requires invO(ego)
+//@   assigns  nothing
+//@   panics_iff false
+//@   ensures  own-storage: fresh(mapid(result))
+//@   ensures  keys: forall k str :: has(result, k) == has(ego.val, k)
+//@   ensures  vals: forall k str :: has(ego.val, k) ==> nat1(mark(), valOf(ego.val[k]), result[k])
 
 // Merge (C06, C09): Clone of the receiver, then one Set per field of the argument through an
 // accumulating closure (each / others clauses; see DESIGN.md I.9).
